@@ -36,7 +36,7 @@ pub open spec fn hist_all(w: World, from: int, inv: spec_fn(Fs) -> bool) -> bool
 }
 /// every new history state is one of the two given states
 pub open spec fn hist_ext(pre: World, post: World) -> bool {
-    pre.hist.len() <= post.hist.len() && post.hist.subrange(0, pre.hist.len() as int) =~= pre.hist
+    pre.hist.len() <= post.hist.len() && forall|i: int| 0 <= i < pre.hist.len() ==> #[trigger] post.hist[i] == pre.hist[i]
 }
 
 /// nothing at or below `d` differs between the two states
